@@ -49,7 +49,21 @@ RULE = (
     "checkout_history: an index with a local cache ObjectStorage whose workspace is populated by index "
     "checkout with link type from {symlink, hardlink, copy}, then writes through the links / link "
     "replaced by a file / retargeted, each followed by md5(index) and update(), judging only the "
-    "workspace path's hash. Queries: State.get, State.get_many over batches of size "
+    "workspace path's hash. checkout_switch (checkout over checkout): a workspace of <= 4 files "
+    "(one nested) populated by index checkout of version 1 and then re-populated 1-3 times by "
+    "compare(old, version k) + apply(state=State or None, update_meta drawn, relink / delete drawn) "
+    "where per file the version keeps its bytes, changes the hash at the same size, at another size, "
+    "shares bytes with other files, is empty, or is absent; link types from {hardlink, symlink, copy, "
+    "hardlink+copy, symlink+copy, hardlink+symlink, reflink+hardlink+copy, reflink+symlink+copy, "
+    "reflink+copy} given as apply(links=) or as the cache odb's cache_types; old = the index checked "
+    "out before / md5(build(ws)) through the state / build + update() from the index kept after the "
+    "previous step; the user may atomically replace, delete, touch or create workspace files between "
+    "checkouts. After EVERY checkout step EVERY workspace file is asked for through update() from the "
+    "just checked-out index (when its meta was refreshed), md5() of that index, State.get, "
+    "State.get_many (== get), hash_file(state=), staging build(file, dry_run) and build(dir), "
+    "md5(build(ws)); each returned hash must be the digest of the bytes the path yields at that "
+    "instant (whether checkout wrote the right bytes is C09's matter, not judged). "
+    "Queries: State.get, State.get_many over batches of size "
     "{0,1,2,3..8,998,999,1000,1001,2500} (live files at drawn positions among padding files that "
     "are saved once per history: most valid, some unsaved / other algorithm / newer version / "
     "deleted), hash_file(state=), build() of a file or the directory on a store carrying the state, "
@@ -78,7 +92,8 @@ RULE = (
     "non-local filesystems are misses. Non-trivial = a query answered from the cache for a path "
     "mutated earlier in the history, or a batch >= 1000, or an update() after a mutation, or a "
     "mutation that fired during a batch call, or >= 2 files with distinct contents hashed in the "
-    "pool, or a recorded batch with a vanished item, or a mutation of a checked-out workspace; "
+    "pool, or a recorded batch with a vanished item, or a mutation of a checked-out workspace, or a "
+    "second checkout that re-created a file whose hash changed; "
     "distinct "
     "= SHA-1 of the trace JSON."
 )
@@ -93,6 +108,17 @@ ASSUMPTIONS = [
     "the hold-back inside the wrapper around build.hash_file only shapes the pool's completion "
     "order; verdicts do not depend on timing",
     "hashlib and vd.ref.ref_hash (md5-dos2unix sniffing rule) are the trusted reference",
+    "checkout_switch: the old index handed to compare() describes the workspace as it is (the index "
+    "checked out before only while the user has not touched the workspace, the previous apply "
+    "reported no error and the file set equals that index's; otherwise an index built from the "
+    "workspace; compare(None, ...) only into an empty workspace); the user never writes through a "
+    "link into the cache; cache objects are intact",
+    "checkout_switch: files created by checkout carry real-clock timestamps; the premise 'a path "
+    "never shows the same (inode, mtime, size) with other bytes' is monitored per workspace path "
+    "after every step, and only if a recycled inode number plus a same-tick timestamp broke it would "
+    "the harness move that file's mtime on (label co-switch:token-collision-restepped) - a file that "
+    "checkout left untouched keeps its triple, so a hash recorded for it must still be that of its "
+    "bytes",
 ]
 
 T0_NS = 1_700_000_000 * 10**9
